@@ -855,46 +855,80 @@ class Exec(Engine):
                 return
 
     def loop_items(s, it_node, p):
-        """for-iterable -> list of (kind, payload, path): kind 'items' (concrete list of values) or 'seq' (SSeq, elem maker)"""
-        if isinstance(it_node, ast.Call) and isinstance(it_node.func, ast.Name) and it_node.func.id in ("enumerate", "zip", "reversed") and not p.has(it_node.func.id):
-            fn = it_node.func.id
-            for av, p1 in s.ev_list(it_node.args, p):
-                seqs = [a if isinstance(a, STup) else s.as_seq(a, p1) for a in av]
-                if all(isinstance(q, STup) for q in seqs):
-                    if fn == "enumerate":
-                        yield "items", [STup([SInt(i), x]) for i, x in enumerate(seqs[0].items)], p1
-                    elif fn == "zip":
-                        yield "items", [STup(list(xs)) for xs in zip(*[q.items for q in seqs])], p1
+        """for-iterable -> (kind, payload, path): 'items' (concrete list of values) | 'seq' (length term, element maker) | 'set'.
+        list(...) / tuple(...) wrappers are transparent; zip / enumerate / reversed compose (also nested)."""
+        def is_call(n, names):
+            return isinstance(n, ast.Call) and isinstance(n.func, ast.Name) and n.func.id in names and not p.has(n.func.id)
+
+        def spec(node, p0):
+            if is_call(node, ("list", "tuple")) and len(node.args) == 1 and not isinstance(node.args[0], (ast.GeneratorExp, ast.ListComp)):
+                yield from spec(node.args[0], p0)
+                return
+            if is_call(node, ("reversed",)):
+                for kind, pay, p1 in spec(node.args[0], p0):
+                    if kind == "items":
+                        yield "items", list(reversed(pay)), p1
+                    elif kind == "seq":
+                        n, elem = pay
+                        yield "seq", (n, lambda k, n=n, elem=elem: elem(n - 1 - k)), p1
                     else:
-                        yield "items", list(reversed(seqs[0].items)), p1
-                    continue
-                seqs = [s.as_seq(q, p1) for q in seqs]
-                if fn == "enumerate":
-                    yield "seq", (seqs[0].n, lambda k, q=seqs[0]: STup([SInt(k), q.at(k)])), p1
-                elif fn == "zip":
-                    ln = seqs[0].n
-                    for q in seqs[1:]:
-                        ln = z3.If(q.n < ln, q.n, ln)
-                    yield "seq", (z3.simplify(ln), lambda k, qs=seqs: STup([q.at(k) for q in qs])), p1
+                        raise OutOfSubset("reversed(set)")
+                return
+            if is_call(node, ("enumerate",)):
+                for kind, pay, p1 in spec(node.args[0], p0):
+                    if kind == "items":
+                        yield "items", [STup([SInt(i), x]) for i, x in enumerate(pay)], p1
+                    elif kind == "seq":
+                        n, elem = pay
+                        yield "seq", (n, lambda k, elem=elem: STup([SInt(k), elem(k)])), p1
+                    else:
+                        raise OutOfSubset("enumerate(set)")
+                return
+            if is_call(node, ("zip",)):
+                def combine(args, p0):
+                    if not args:
+                        yield [], p0
+                        return
+                    for kind, pay, p1 in spec(args[0], p0):
+                        for rest, p2 in combine(args[1:], p1):
+                            yield [(kind, pay)] + rest, p2
+
+                for parts, p1 in combine(list(node.args), p0):
+                    if all(k == "items" for k, _ in parts):
+                        yield "items", [STup(list(xs)) for xs in zip(*[pay for _, pay in parts])], p1
+                        continue
+                    seqs = []
+                    for k, pay in parts:
+                        if k == "items":
+                            sq = s.as_seq(STup(pay), p1)
+                            seqs.append((sq.n, lambda j, sq=sq: sq.at(j)))
+                        elif k == "seq":
+                            seqs.append(pay)
+                        else:
+                            raise OutOfSubset("zip(set)")
+                    ln = seqs[0][0]
+                    for n2, _ in seqs[1:]:
+                        ln = z3.If(n2 < ln, n2, ln)
+                    yield "seq", (z3.simplify(ln), lambda j, seqs=seqs: STup([el(j) for _, el in seqs])), p1
+                return
+            for it, p1 in s.ev(node, p0):
+                if isinstance(it, SSet):
+                    yield "set", it, p1
+                elif isinstance(it, STup):
+                    yield "items", list(it.items), p1
+                elif isinstance(it, SDict):
+                    yield "items", [s.lift(k) for k in it.d], p1
+                elif isinstance(it, SConc) and isinstance(it.v, (list, tuple, range, str, dict)):
+                    yield "items", [s.lift(k) for k in it.v], p1
                 else:
-                    yield "seq", (seqs[0].n, lambda k, q=seqs[0]: q.at(q.n - 1 - k)), p1
-            return
-        for it, p1 in s.ev(it_node, p):
-            if isinstance(it, SSet):
-                yield "set", it, p1
-            elif isinstance(it, STup):
-                yield "items", list(it.items), p1
-            elif isinstance(it, SDict):
-                yield "items", [s.lift(k) for k in it.d], p1
-            elif isinstance(it, SConc) and isinstance(it.v, (list, tuple, range, str, dict)):
-                yield "items", [s.lift(k) for k in it.v], p1
-            else:
-                sq = s.as_seq(it, p1)
-                nc = z3.simplify(sq.n)
-                if z3.is_int_value(nc) and nc.as_long() <= 12:
-                    yield "items", [sq.at(z3.IntVal(k)) for k in range(nc.as_long())], p1
-                else:
-                    yield "seq", (sq.n, lambda k, q=sq: q.at(k)), p1
+                    sq = s.as_seq(it, p1)
+                    nc = z3.simplify(sq.n)
+                    if z3.is_int_value(nc) and nc.as_long() <= 12:
+                        yield "items", [sq.at(z3.IntVal(k)) for k in range(nc.as_long())], p1
+                    else:
+                        yield "seq", (sq.n, lambda k, q=sq: q.at(k)), p1
+
+        yield from spec(it_node, p)
 
     def st_For(s, st, p):
         ordn = s.loop_counter
